@@ -171,6 +171,7 @@ func famRegs(r *rng) []string {
 // C07: things that used to panic or are plausible panic sites
 func famPanic(r *rng) []string {
 	cands := []string{
+		"-1:9223372036854775807", "(-9223372036854775807-1):9223372036854775807", "0:9223372036854775807", "9223372036854775807:-2", "len(-5:9223372036854775806)",
 		"1/0", "1%0", "7 / (3-3)", "1 << -1", "1 >> -3", "-9223372036854775807 - 1 / -1", "(-9223372036854775807 - 1) / -1",
 		"del([1])", "del(1)", "del(\"a\")", "del(x.y.z)", "x = [1]; del(x[0])",
 		"\"abc\"[-10:2]", "[1,2,3][-10:2]", "[1,2,3][-10:-5]", "\"abc\"[-9:-7]", "[1,2,3][5:3]", "{1:2,3:4,5:6}[-10:-5]", "\"abc\"[2:1]", "5[0:1]",
